@@ -7,6 +7,7 @@ import CookModel.Lemmas.GroupOutcome
 import CookModel.Props.C08
 import CookModel.Lemmas.FractionSat
 import CookModel.Lemmas.MergeSat
+import CookModel.Lemmas.CatSat
 /-
   C10  Grouping and listing ingredients conserves quantities.
 
@@ -1250,5 +1251,150 @@ example : (groupIngredients cB cupRecipe).map (fun l => l.map (fun e => e.quanti
     (fromRecipe idOrd cB (recipeConvert cB .imperial cupRecipe).1).map
         (fun l => l.map (fun e => (e.1, e.2.iter idOrd))) = some [(flour, [num (5/2) (some ['c'])])] := by
   decide +kernel
+
+-- ===== w12c10cat =====
+
+namespace C10Witness
+/-- a list of three names: `chicken of the sea` holds the FITTED group (`2 1/2 c`, `1 bag`), `flour` and `tuna` hold
+    `1.25 cup, 3 bag`; the aisle file `aisleConf` sends `tuna` and `chicken of the sea` to (`canned`, `tuna`) -/
+def catList : IngredientList Rat := [(chicken, mergeB), (flour, mergeA), (tuna, mergeA)]
+
+theorem catList_allNum : IngredientList.AllNum Number.NotSaturated catList := by
+  intro e he
+  simp only [catList, List.mem_cons, List.not_mem_nil, or_false] at he
+  rcases he with rfl | rfl | rfl
+  · exact mergeB_allNum
+  · exact mergeA_allNum
+  · exact mergeA_allNum
+
+/-- cookware amounts: the written fractions `1 1/2` and `2 1/4`, a text and the range `1 – 2` -/
+def cwVals : List (Value Rat) :=
+  [.number (.fraction 1 1 2 0), .number (.fraction 2 1 4 0), .text ['a'], .range (.regular 1) (.fraction 2 0 1 0)]
+
+theorem cwVals_allNum : ∀ v ∈ cwVals, v.AllNum Number.NotSaturated := by
+  have h1 : (Number.fraction 1 1 2 0 : Number Rat).NotSaturated := by
+    simp only [Number.NotSaturated]; decide +kernel
+  have h2 : (Number.fraction 2 1 4 0 : Number Rat).NotSaturated := by
+    simp only [Number.NotSaturated]; decide +kernel
+  have h3 : (Number.fraction 2 0 1 0 : Number Rat).NotSaturated := by
+    simp only [Number.NotSaturated]; decide +kernel
+  intro v hv
+  simp only [cwVals, List.mem_cons, List.not_mem_nil, or_false] at hv
+  rcases hv with rfl | rfl | rfl | rfl
+  · exact h1
+  · exact h2
+  · trivial
+  · exact ⟨trivial, h3⟩
+end C10Witness
+
+/-- **`IngredientList::categorize` never writes a saturated fraction**: for every aisle configuration and hash order,
+    if every group of the list holds only plain numbers and non-saturated fractions (`IngredientList.AllNum
+    Number.NotSaturated`, what `C10_ingredient_list_never_saturates` gives for a list built by `add_recipe`), then so
+    does every group found under every (category, common name) and every group of `other`
+    (`Categorized.AllNum`), everything those groups yield (`iter`), and everything they yield after `fit` with any
+    converter.  (`categorize` copies a group or `absorb`s it into the one already under the common name:
+    `C10_absorb_never_saturates`, by induction over the list.) -/
+theorem C10_categorize_never_saturates (c : Converter Rat) (ord : MapOrder Rat) (hord : ord.IsPerm)
+    (aisle : Aisle.Conf) (list : IngredientList Rat) (hl : IngredientList.AllNum Number.NotSaturated list) :
+    Categorized.AllNum Number.NotSaturated (categorize ord aisle list) ∧
+    (∀ k ∈ (categorize ord aisle list).categories, ∀ e ∈ k.2,
+      (∀ q ∈ e.2.iter ord, q.value.AllNum Number.NotSaturated) ∧
+      (∀ q ∈ (e.2.fit c).1.iter ord, q.value.AllNum Number.NotSaturated)) ∧
+    (∀ e ∈ (categorize ord aisle list).other,
+      (∀ q ∈ e.2.iter ord, q.value.AllNum Number.NotSaturated) ∧
+      (∀ q ∈ (e.2.fit c).1.iter ord, q.value.AllNum Number.NotSaturated)) := by
+  have h := csat_categorize (fsat_approxClosed c).regular ord hord aisle hl
+  have hy : ∀ g : GroupedQuantity Rat, g.AllNum Number.NotSaturated →
+      (∀ q ∈ g.iter ord, q.value.AllNum Number.NotSaturated) ∧
+      (∀ q ∈ (g.fit c).1.iter ord, q.value.AllNum Number.NotSaturated) := by
+    intro g hg
+    have h1 := fnum_iter_of_allNum ord hord hg
+    exact ⟨h1, (C10_fit_never_saturates c).2 ord _ h1⟩
+  exact ⟨h, fun k hk e he => hy _ (h.1 k hk e he), fun e he => hy _ (h.2 e he)⟩
+
+open C10Witness in
+/-- the three-name list split by `aisleConf`: `tuna` is absorbed into the fitted group already under (`canned`, `tuna`)
+    — the bags are summed to the plain `4 bag`, the fraction `2 1/2 c` stays, `1.25 cup` is copied — and `flour` goes
+    to `other` unchanged: the conclusion speaks about a fraction -/
+example : IngredientList.AllNum Number.NotSaturated catList ∧
+    (categorize idOrd aisleConf catList).categories.map (fun k => k.1) = [canned] ∧
+    (categorize idOrd aisleConf catList).categories.flatMap (fun k => k.2.map (fun e => (e.1, e.2.iter idOrd))) =
+      [(tuna, [⟨.number (.fraction 2 1 2 0), some ['c']⟩, num 4 (some bag), num (5/4) (some cupText)])] ∧
+    (categorize idOrd aisleConf catList).other.map (fun e => (e.1, e.2.iter idOrd)) =
+      [(flour, [num (5/4) (some cupText), num 3 (some bag)])] :=
+  ⟨catList_allNum, by decide +kernel, by decide +kernel, by decide +kernel⟩
+
+/-- **A sequence of `add_recipe` calls never writes a saturated fraction**: for every converter and hash order, a
+    list whose groups hold only plain numbers and non-saturated fractions, and recipes whose ingredient quantities do:
+    the list after all the calls (when none panics — `C10_recipes_to_aisles` says when) has only such groups,
+    everything they yield, and everything they yield after `fit`; in particular from the empty list.  (Induction over
+    the recipes with part (1) of `C10_ingredient_list_never_saturates`.) -/
+theorem C10_add_recipes_never_saturates (c : Converter Rat) (ord : MapOrder Rat) (hord : ord.IsPerm)
+    (rs : List (ScaledRecipe Rat))
+    (hr : ∀ r ∈ rs, ∀ i ∈ r.ingredients, ∀ q, i.quantity = some q → q.value.AllNum Number.NotSaturated) :
+    (∀ (list out : IngredientList Rat), IngredientList.AllNum Number.NotSaturated list →
+      addRecipes ord c list rs = some out →
+      IngredientList.AllNum Number.NotSaturated out ∧
+      ∀ e ∈ out, (∀ q ∈ e.2.iter ord, q.value.AllNum Number.NotSaturated) ∧
+        (∀ q ∈ (e.2.fit c).1.iter ord, q.value.AllNum Number.NotSaturated)) ∧
+    (∀ out : IngredientList Rat, addRecipes ord c [] rs = some out →
+      IngredientList.AllNum Number.NotSaturated out) := by
+  have hmain : ∀ (list out : IngredientList Rat), IngredientList.AllNum Number.NotSaturated list →
+      addRecipes ord c list rs = some out → IngredientList.AllNum Number.NotSaturated out :=
+    fun list out hl h => csat_addRecipes (fsat_approxClosed c) ord hord rs hl hr out h
+  refine ⟨?_, ?_⟩
+  · intro list out hl h
+    have ho := hmain list out hl h
+    refine ⟨ho, ?_⟩
+    intro e he
+    have h1 := fnum_iter_of_allNum ord hord (ho e he)
+    exact ⟨h1, (C10_fit_never_saturates c).2 ord _ h1⟩
+  · intro out h
+    exact hmain [] out (fun e he => absurd he List.not_mem_nil) h
+
+open C10Witness in
+/-- the cup recipe (a plain `1.25 cup` and a written `1 1/4 cup`) added twice, once as it is and once converted to
+    imperial: the four fitted `1 1/4 c` are merged under `flour` into the plain `5 c` -/
+example : cupRecipe.AllNum Number.NotSaturated ∧
+    (addRecipes idOrd cB [] [cupRecipe, (recipeConvert cB .imperial cupRecipe).1]).map
+      (fun l => l.map (fun e => (e.1, e.2.iter idOrd))) = some [(flour, [num 5 (some ['c'])])] :=
+  ⟨cupRecipe_allNum, by decide +kernel⟩
+
+/-- **Cookware amounts (`GroupedValue`) never hold a saturated fraction, and hold exactly the inputs.**
+    `GroupedValue::add` of a value into a group, over any sequence (`groupedValueAddAll`), and `GroupedValue::merge`:
+    if every number the group and the added values hold (both ends of ranges; nothing is asked of texts) is a plain
+    number or a non-saturated fraction, the `expect` does not fire and every number of the result is one too — and
+    (`C10_cookware_conserves`, `C10_cookware_merge_conserves`, repeated here for the same result `r`) the numeric total
+    of the result, both ends, is that of the group plus the added values.  No bound on the amounts: a sum is the
+    plain number `Value::try_add` makes (`fnum_tryAdd`), everything else is copied; no fraction is ever made here
+    (cookware amounts are never `fit`). -/
+theorem C10_grouped_value_never_saturates (g vs : List (Value Rat))
+    (hg : ∀ v ∈ g, v.AllNum Number.NotSaturated) (hv : ∀ v ∈ vs, v.AllNum Number.NotSaturated) :
+    (∀ v ∈ vs, ∃ r, groupedValueAdd g v = some r ∧ (∀ x ∈ r, x.AllNum Number.NotSaturated) ∧
+      sumBy (vEnd false) r = sumBy (vEnd false) g + vEnd false v ∧
+      sumBy (vEnd true) r = sumBy (vEnd true) g + vEnd true v) ∧
+    (∃ r, groupedValueAddAll g vs = some r ∧ groupedValueMerge g vs = some r ∧
+      (∀ x ∈ r, x.AllNum Number.NotSaturated) ∧
+      sumBy (vEnd false) r = sumBy (vEnd false) g + sumBy (vEnd false) vs ∧
+      sumBy (vEnd true) r = sumBy (vEnd true) g + sumBy (vEnd true) vs) := by
+  have hreg : ∀ x : Rat, (Number.regular x).NotSaturated := fun _ => trivial
+  refine ⟨?_, ?_⟩
+  · intro v hvm
+    obtain ⟨r, hr⟩ := groupedValueAdd_some g v
+    exact ⟨r, hr, csat_groupedValueAdd hreg hg (hv v hvm) hr,
+      groupedValueAdd_sum (vEnd_additive false) hr, groupedValueAdd_sum (vEnd_additive true) hr⟩
+  · obtain ⟨r, hr⟩ := groupedValueAddAll_some vs g
+    exact ⟨r, hr, hr, csat_groupedValueAddAll hreg vs hg hv hr,
+      groupedValueAddAll_sum (vEnd_additive false) vs hr, groupedValueAddAll_sum (vEnd_additive true) vs hr⟩
+
+open C10Witness in
+/-- the written fractions `1 1/2` and `2 1/4`, a text and the range `1 – 2` added into the empty group give the range
+    of plain numbers `4.75 – 5.75` and the text; merged into a group holding `1 1/2`, a text and `2 1/4` give the
+    plain `3.75` and the text -/
+example : (∀ v ∈ cwVals, v.AllNum Number.NotSaturated) ∧
+    groupedValueAddAll [] cwVals = some [.range (.regular (19/4)) (.regular (23/4)), .text ['a']] ∧
+    groupedValueMerge [(.number (.fraction 1 1 2 0) : Value Rat)] [.text ['a'], .number (.fraction 2 1 4 0)] =
+      some [.number (.regular (15/4)), .text ['a']] :=
+  ⟨cwVals_allNum, by decide +kernel, by decide +kernel⟩
 
 end Cook
